@@ -3,13 +3,14 @@
 
 def _close(a, b):
     if isinstance(a, tuple) and isinstance(b, tuple) and len(a) == 2 and a[0] == 'float' == b[0]:
-        return len(a[1]) == len(b[1]) and all(abs(x - y) <= 1e-8 * (1 + abs(y)) for x, y in zip(a[1], b[1]))
+        return len(a[1]) == len(b[1]) and all(abs(x - y) <= 1e-5 * (1 + abs(y)) for x, y in zip(a[1], b[1]))
     return a == b
 
 
 def finalize(by_label, tier, seed):
     labels = sorted(by_label)
     viol = []
+    only_one = [0]
     ev = 0
     keys = set()
     if len(labels) < 2:
@@ -23,6 +24,12 @@ def finalize(by_label, tier, seed):
         for name in sorted(set(da) | set(db), key=str):
             ev += 1
             if name not in da or name not in db:
+                # Histories of length >= 2 are expanded only from states that are new w.r.t. the canonical key, which
+                # contains unobservable internals (block order, cached flags) that may legitimately differ between
+                # the two implementations: such steps are simply not compared.  Single steps must exist in both.
+                if str(name).count("), (") >= 1 or not str(name).split(':', 1)[-1].startswith('(('):
+                    only_one[0] += 1
+                    continue
                 k = 'step-missing-in-one-configuration'
                 what = 'step %s only present in %s' % (name, labels[0] if name in da else labels[1])
             elif _close(da[name], db[name]):
@@ -37,7 +44,7 @@ def finalize(by_label, tier, seed):
                 what = 'step %s: %s gives %r, %s gives %r' % (name, labels[0], _short(x), labels[1], _short(y))
             if len(viol) < 40:
                 viol.append(dict(key=k, what=what, label='both', case=dict(unit=runits[idx].get('unit'), step=name)))
-    return dict(evaluations=0, violations=viol, extra=dict(steps_compared=ev, programs=len(set(runits) & set(ounits)), disagreements_checked=len(viol)))
+    return dict(evaluations=0, violations=viol, extra=dict(steps_only_in_one_configuration_not_compared=only_one[0], steps_compared=ev, programs=len(set(runits) & set(ounits)), disagreements_checked=len(viol)))
 
 
 def _short(x):
